@@ -96,12 +96,14 @@ Fixpoint s2c_sign_loop (fuel : nat) (counter : nat) (msg32 seckey ndata data32 :
     end
   end.
 
-Definition s2c_sign_inner (msg32 seckey data32 : bytes) : s2c_result :=
+(* (the API functions come in two layers: [.._fuel] with the loop bound as a parameter - theorems are stated
+   for every bound - and the instance with [sign_fuel] that the drivers run) *)
+Definition s2c_sign_inner_fuel (fuel : nat) (msg32 seckey data32 : bytes) : s2c_result :=
   let ndata := s2c_data_hash data32 in
   let sec := seckey_of_b32 P seckey in
   let d := match sec with Some d => d | None => 1 end in
   let m := fst (sc_of_b32 P msg32) in
-  match s2c_sign_loop sign_fuel 0 msg32 seckey ndata data32 d m with
+  match s2c_sign_loop fuel 0 msg32 seckey ndata data32 d m with
   | S2cOk r s Q => match sec with Some _ => S2cOk r s Q | None => S2cFail (Some Q) end
   | x => x
   end.
@@ -109,12 +111,14 @@ Definition s2c_sign_inner (msg32 seckey data32 : bytes) : s2c_result :=
 (* secp256k1_ecdsa_s2c_sign; want_opening = false models s2c_opening == NULL.
    result: ret, signature object, opening object (only when requested and ret = 1: on failure the C code
    leaves whatever nonce point it stored last, which the header does not specify) *)
-Definition ecdsa_s2c_sign (msg32 seckey data32 : bytes) (want_opening : bool) : list arg :=
-  match s2c_sign_inner msg32 seckey data32 with
+Definition ecdsa_s2c_sign_fuel (fuel : nat) (msg32 seckey data32 : bytes) (want_opening : bool) : list arg :=
+  match s2c_sign_inner_fuel fuel msg32 seckey data32 with
   | S2cOk r s Q => [AInt 1; ABytes (sig_obj r s)] ++ (if want_opening then [ABytes (pk_obj Q)] else [])
   | S2cFail _ => [AInt 0; ABytes (zeros 64)]
   | _ => abstain
   end.
+Definition ecdsa_s2c_sign (msg32 seckey data32 : bytes) (want_opening : bool) : list arg :=
+  ecdsa_s2c_sign_fuel sign_fuel msg32 seckey data32 want_opening.
 
 Definition anti_exfil_sign (msg32 seckey host_data32 : bytes) : list arg :=
   ecdsa_s2c_sign msg32 seckey host_data32 false.
@@ -149,11 +153,13 @@ Fixpoint signer_commit_loop (fuel : nat) (count : nat) (msg32 seckey32 rand_comm
     end
   end.
 
-Definition anti_exfil_signer_commit (msg32 seckey32 rand_commitment32 : bytes) : list arg :=
-  match signer_commit_loop sign_fuel 0 msg32 seckey32 rand_commitment32 with
+Definition anti_exfil_signer_commit_fuel (fuel : nat) (msg32 seckey32 rand_commitment32 : bytes) : list arg :=
+  match signer_commit_loop fuel 0 msg32 seckey32 rand_commitment32 with
   | Some R => [AInt 1; ABytes (pk_obj R)]
   | None => abstain
   end.
+Definition anti_exfil_signer_commit (msg32 seckey32 rand_commitment32 : bytes) : list arg :=
+  anti_exfil_signer_commit_fuel sign_fuel msg32 seckey32 rand_commitment32.
 
 (* secp256k1_anti_exfil_host_verify: verify_commit && ecdsa_verify (short-circuit: when the commitment check
    fails ecdsa_verify is not called, so its illegal callback cannot fire) *)
@@ -165,13 +171,15 @@ Definition anti_exfil_host_verify (sigobj msg32 pkobj host_data32 opening_obj : 
 (* host commits to rho, signer commits (opening Q1), signer signs with rho' (rho' = rho in an honest
    run) and exports its opening Q2, host verifies the signature against rho and Q1.
    result: commitment, Q1 of signer_commit, ret/sig/Q2 of s2c_sign, ret of host_verify *)
-Definition anti_exfil_protocol (msg32 seckey pkobj rho rho' : bytes) : list arg :=
+Definition anti_exfil_protocol_fuel (fuel : nat) (msg32 seckey pkobj rho rho' : bytes) : list arg :=
   let c := sha256_from midstate_s2c_data 64 rho in
-  match signer_commit_loop sign_fuel 0 msg32 seckey c, s2c_sign_inner msg32 seckey rho' with
+  match signer_commit_loop fuel 0 msg32 seckey c, s2c_sign_inner_fuel fuel msg32 seckey rho' with
   | Some Q1, S2cOk r s Q2 =>
     [ABytes c; ABytes (pk_obj Q1); AInt 1; ABytes (sig_obj r s); ABytes (pk_obj Q2)]
       ++ anti_exfil_host_verify (sig_obj r s) msg32 pkobj rho (pk_obj Q1)
   | Some Q1, S2cFail _ => [ABytes c; ABytes (pk_obj Q1); AInt 0]
   | _, _ => abstain
   end.
+Definition anti_exfil_protocol (msg32 seckey pkobj rho rho' : bytes) : list arg :=
+  anti_exfil_protocol_fuel sign_fuel msg32 seckey pkobj rho rho'.
 End S2c.
